@@ -63,7 +63,7 @@ def braket_network(ctx, rng, sym, label_kind):
 
 def case(ctx, rng, braket=False, manylegs=False, hugedense=False):
     sr = ctx.sr
-    sym = rng.choice(gen.SYMS5)
+    sym = gen.pick_sym(rng)
     nt = rng.choice([2, 3, 3, 4])
     if hugedense:
         sym = rng.choice(["Z2", "U1"])
